@@ -16,6 +16,11 @@ from harness.gen import T, coq_pv, coq_sty, coq_senv
 from harness.vlib import coq_str, coq_z
 
 
+# per-shard budget of the vm_compute correspondence: generous on purpose (a shard takes seconds on an idle machine; hitting the limit on a
+# loaded one would be a false alarm)
+CORR_TIMEOUT = 3600
+
+
 def subvalues(d, out=None, depth=0):
     out = [] if out is None else out
     out.append(d)
@@ -438,7 +443,7 @@ def run(ctx: vlib.Ctx, name: str, n_schemas: int, per_schema: int, depth=3, fore
     if not br.ok:
         return cases, None, "model does not build: " + (br.error or "")
     files = emit(cases)
-    res = vlib.coq_eval_many([(f"{name}_{i}", txt) for i, txt in enumerate(files)], timeout=600, jobs=8)
+    res = vlib.coq_eval_many([(f"{name}_{i}", txt) for i, txt in enumerate(files)], timeout=CORR_TIMEOUT, jobs=8)
     bad = []
     shard = 150
     for n, (ok, out) in enumerate(res):
@@ -623,7 +628,7 @@ def run_nd(ctx: vlib.Ctx, name: str, n_schemas: int, foreign: int = 3):
     if not br.ok:
         return cases, None, "model does not build: " + (br.error or "")
     files = emit_nd(cases)
-    res = vlib.coq_eval_many([(f"{name}_{i}", txt) for i, txt in enumerate(files)], timeout=600, jobs=8)
+    res = vlib.coq_eval_many([(f"{name}_{i}", txt) for i, txt in enumerate(files)], timeout=CORR_TIMEOUT, jobs=8)
     bad = []
     for n, (ok, out) in enumerate(res):
         if not ok:
@@ -711,7 +716,7 @@ def k45a_validate(ctx: vlib.Ctx, side: str):
             "Definition smem (l: list string) (n: string) : bool := existsb (String.eqb n) l.\n")
     okf = f"fun c => match c with ((names, (req, opt)), code) => leqb (k45a_{side}_lines names (smem req) (smem opt)) code end"
     bad, log = vlib.coq_bad_idx(f"k45a_{side}", "Core TyModel TdEmit", "From VerifGen Require Import K45a.", defs, cases, okf,
-                                "(list string * (list string * list string)) * list td_line", shard=400, needs=["gen/K45a.vo", "theories/TdEmit.vo"])
+                                "(list string * (list string * list string)) * list td_line", shard=400, timeout=CORR_TIMEOUT, needs=["gen/K45a.vo", "theories/TdEmit.vo"])
     name = f"K45a-translation-vs-generated-{side}-helper"
     if bad is None:
         ctx.correspondence(name, len(cases), -1, log)
@@ -780,7 +785,7 @@ def k45b_validate(ctx: vlib.Ctx):
             "| NPDict k x, NPDict k' y => leqb String.eqb k k' && leqb idx_eqb x y | _, _ => false end.\n")
     okf = "fun c => match c with ((ad, names), code) => pcode_eqb (k45b_pack ad names) code end"
     bad, log = vlib.coq_bad_idx("k45b_pack", "Core TyModel NtEmit", "From VerifGen Require Import K45b.", defs, cases, okf,
-                                "(bool * list string) * nt_pack_code", shard=400, needs=["gen/K45b.vo", "theories/NtEmit.vo"])
+                                "(bool * list string) * nt_pack_code", shard=400, timeout=CORR_TIMEOUT, needs=["gen/K45b.vo", "theories/NtEmit.vo"])
     name = "K45b-translation-vs-generated-source"
     if bad is None:
         ctx.correspondence(name, len(cases), -1, log)
@@ -927,7 +932,7 @@ def run_tv(ctx: vlib.Ctx, name: str, n_schemas: int, foreign: int = 2):
     br = vlib.coq_make(["theories/TyModel.vo", "theories/CaseLib.vo", "theories/Wire.vo"])
     if not br.ok:
         return cases, None, "model does not build: " + (br.error or "")
-    res = vlib.coq_eval_many([(f"{name}_{i}", txt) for i, txt in enumerate(emit_tv(cases))], timeout=600, jobs=8)
+    res = vlib.coq_eval_many([(f"{name}_{i}", txt) for i, txt in enumerate(emit_tv(cases))], timeout=CORR_TIMEOUT, jobs=8)
     bad = []
     for n, (ok, out) in enumerate(res):
         if not ok:
